@@ -168,6 +168,16 @@ def run_harness(chk, scripts, tag):
     for (pkg, run, ov, obs), (rc, out) in zip(jobs, results):
         if rc != 0:
             raise vlib.Inconclusive("harness %s failed (rc=%s):\n%s" % (pkg, rc, out[-3000:]))
+    for (_, _, _, obs) in jobs:
+        if os.path.exists(obs + ".meta"):
+            meta = json.load(open(obs + ".meta"))
+            if meta.get("lingering_debouncers"):
+                chk.cov["sm_lingering_debouncers"] = chk.cov.get("sm_lingering_debouncers", 0) + meta["lingering_debouncers"]
+            n = meta.get("foreign_reload_calls", 0)
+            if n:
+                chk.cov["sm_reload_calls_of_no_run"] = chk.cov.get("sm_reload_calls_of_no_run", 0) + n
+                chk.notes.append("%d reload call(s) in the session-manager target carried another run's configuration "
+                                 "(a debouncer that outlived its run); they were not attributed to any run" % n)
     merged = os.path.join(d, "obs.ndjson")
     with open(merged, "w") as fh:
         for (_, _, _, obs) in jobs:
